@@ -49,7 +49,7 @@ CHECKS = {
              text='HLL.tla models warm-up set, conversion and register phase; ExactWhileWarm, ConversionLosesNothing and the action property DuplicateBlind are model-checked over every insertion sequence of a bounded space; each sequence is replayed on the real class (p=3, capacity 3); full-scale runs of the unmodified class crossing 2^18 in several orders and up to 2^20/2^21 distinct values are recorded add by add near the boundary and validated by TraceHLL.tla (exactness, 2% bound, duplicate-blindness).',
              note='the 2% clause is decided on the seeded full-scale runs; the linear-counting table of the scaled model is computed by the harness'),
  'C15': dict(sec='3/C15', tech='TLC on CMS.tla (all hash functions, all bounded streams; bounded counter) + replay of every counter stream + TraceCMS.tla on recorded real count-min streams',
-             text='CMS.tla chooses an arbitrary hash function at Init and explores every update stream of single updates and whole-list BatchUpdate calls (deviation BatchCellOnce as control): NeverUnder, NeverOverTotal, RowSumsAreTotal; the bounded counter machine is model-checked and every stream replayed on the real class; real CountMinSketch objects of many shapes and seeds are driven by seeded streams (add, batch_add of single items and of whole lists with repeated and colliding items) and each call (all query results, row sums) is validated by TraceCMS.tla against the ghosts truth/total.',
+             text='CMS.tla chooses an arbitrary hash function at Init and explores every update stream of single updates and whole-list BatchUpdate calls (deviation BatchCellOnce as control): NeverUnder, NeverOverTotal, RowSumsAreTotal; the bounded counter machine (adds and look-ups, deviation LookupInserts as control) is model-checked and every stream replayed on the real class, once plainly and once with look-ups between the adds; real CountMinSketch objects of many shapes and seeds are driven by seeded streams (add, batch_add of single items and of whole lists with repeated and colliding items) and each call (all query results, row sums) is validated by TraceCMS.tla against the ghosts truth/total.',
              note='exhaustive for D<=3, W<=3, <=3 items, streams <=5; real streams seeded (40 quick / 400 thorough)'),
 
  'C16': dict(sec='3/C16', tech='TLC enumeration of Parsers.tla (character-level CSV/TSV/VW render+parse machines, namespace maps) + every rendered line through the real generic_line_parser / parse_namespace; wrong-arity lines through the real streaming loop',
@@ -91,7 +91,7 @@ for pid in ids:
             'replay_cmd_template': f'./check {pid} --replay {{path}}',
             'engine': 'tlc+replay',
             'level_claimed': {'category': 'model_checking', 'text': c['text'], 'design_ref': c['sec']},
-            'level_note': c['note'] + '; the seeded input families of the drivers were extended after ten rounds of independent seeded changes (DESIGN.md 9.5, 9.8; seeded/<id>/)',
+            'level_note': c['note'] + '; the seeded input families of the drivers were extended after eleven rounds of independent seeded changes (DESIGN.md 9.5, 9.8; seeded/<id>/)',
             'technique': c['tech'],
         })
 claimed = {c['property_id'] for c in checks}
